@@ -30,7 +30,7 @@ fn main() {
         let mut graphs: Vec<Vec<u32>> = vec![vec![]];
         for i in 0..n { let mut next = vec![]; for g in &graphs { for mask in 0..(1u32 << i) { let mut h = g.clone(); h.push(mask); next.push(h); } } graphs = next; }
         for g in &graphs {
-            for variant in ["plain", "repeated-dependency-entry", "missing-dependency", "every-item-delivered-twice"] {
+            for variant in ["plain", "repeated-dependency-entry", "missing-dependency", "every-item-delivered-twice", "whole-sequence-delivered-twice"] {
                 // dependency lists
                 let deps: Vec<Vec<Hash>> = (0..n).map(|i| {
                     let mut d: Vec<Hash> = (0..i).filter(|j| g[i] >> j & 1 == 1).map(|j| ids[j]).collect();
@@ -39,24 +39,32 @@ fn main() {
                     d
                 }).collect();
                 if variant == "repeated-dependency-entry" && deps.iter().all(|d| d.is_empty()) { continue; }
-                for p in perms(n) {
+                for p in perms(n) { for drain_at_end_only in [false, true] {
                     n_eval += 1;
                     if g.iter().any(|m| *m != 0) { nontrivial += 1; }
                     let released: Vec<Hash> = rt.block_on(async {
                         let store = SqliteStore::temporary().await;
                         let orderer = CausalOrderer::new(store.clone());
                         let mut out = vec![];
-                        let delivery: Vec<usize> = if variant == "every-item-delivered-twice" { p.iter().flat_map(|i| [*i, *i]).collect() } else { p.clone() };
+                        let delivery: Vec<usize> = if variant == "every-item-delivered-twice" { p.iter().flat_map(|i| [*i, *i]).collect() } else if variant == "whole-sequence-delivered-twice" { p.iter().chain(p.iter()).cloned().collect() } else { p.clone() };
                         for i in &delivery {
                             let permit = store.begin().await.unwrap();
                             orderer.process(ids[*i], &deps[*i]).await.unwrap();
                             store.commit(permit).await.unwrap();
+                            if drain_at_end_only { continue; }
                             loop {
                                 let permit = store.begin().await.unwrap();
                                 let x = orderer.next().await.unwrap();
                                 store.commit(permit).await.unwrap();
                                 match x { Some(id) => out.push(id), None => break }
                             }
+                        }
+                        // everything that is (still) queued is taken out at the end
+                        loop {
+                            let permit = store.begin().await.unwrap();
+                            let x = orderer.next().await.unwrap();
+                            store.commit(permit).await.unwrap();
+                            match x { Some(id) => out.push(id), None => break }
                         }
                         out
                     });
@@ -67,20 +75,21 @@ fn main() {
                         for i in 0..n { if !ok[i] && deps[i].iter().all(|d| ids.iter().position(|x| x == d).map(|j| j < n && ok[j]).unwrap_or(false)) { ok[i] = true; ch = true; } }
                         if !ch { break; }
                     }
-                    let inp = json!({"items": n, "dependencies(item -> indexes)": deps.iter().map(|d| d.iter().map(|h| ids.iter().position(|x| x == h)).collect::<Vec<_>>()).collect::<Vec<_>>(), "delivery_order": p, "variant": variant});
+                    let inp = json!({"items": n, "dependencies(item -> indexes)": deps.iter().map(|d| d.iter().map(|h| ids.iter().position(|x| x == h)).collect::<Vec<_>>()).collect::<Vec<_>>(), "delivery_order": p, "queue_drained": if drain_at_end_only { "only after the last delivery" } else { "after every delivery" }, "variant": variant});
                     let rel_idx: Vec<usize> = released.iter().map(|h| ids.iter().position(|x| x == h).unwrap()).collect();
                     let mut class = None;
                     // safety
                     for (pos, i) in rel_idx.iter().enumerate() {
                         // an item that is delivered again after it was released is queued again (documented behaviour of the
                         // store's mark_ready: "not swallow items when they got re-processed"); without re-delivery never twice
-                        if rel_idx[..pos].contains(i) && variant != "every-item-delivered-twice" { class = Some("item-released-twice"); }
+                        if rel_idx[..pos].contains(i) && !variant.contains("delivered-twice") { class = Some("item-released-twice"); }
                         for d in &deps[*i] { let j = ids.iter().position(|x| x == d).unwrap(); if !rel_idx[..pos].contains(&j) { class = Some("item-released-before-its-dependency"); } }
                     }
                     if class.is_none() {
                         for i in 0..n { if ok[i] && !rel_idx.contains(&i) { class = Some(if variant == "repeated-dependency-entry" { "item-with-repeated-dependency-entry-never-released" } else { "item-with-all-dependencies-processed-never-released" }); } }
                     }
                     if let Some(c) = class { if reported.insert(c) { rp_core::report(true, c, inp, json!({"released(order)": rel_idx, "expected_released(set)": (0..n).filter(|i| ok[*i]).collect::<Vec<_>>()}), &[]); } }
+                }
                 }
             }
         }
